@@ -350,10 +350,10 @@ def r96(ctx, fx):
     for x, p in lib.hir_calls(ms.hir["body"], "Iterator::filter"):
         clo = lib.strip(x["args"][0])
         d = repr(lib.hdesc(clo.get("body", {})))
-        if "'bank'" in d and "'write'" in d and "unwrap_or" in d and "'And'" in d:
+        if "'bank'" in d and "'write'" in d and "unwrap_or" in d and "'And'" in d and "is_empty" in d and "Segment::range" in d:
             sel = True
     if not sel:
-        ctx.finding(rid, k, "a bank must consist of the segments whose `bank` (or the default bank) names it and whose `write` is true", ms.where)
+        ctx.finding(rid, k, "a bank must consist of the non-empty segments whose `bank` (or the default bank) names it and whose `write` is true (an empty segment has an unchecked range)", ms.where)
     k = ms.path + "|padding"
     ctx.inst(rid, k)
     pad = False
